@@ -278,6 +278,34 @@ func rnsMachine(rt *rapid.T, c *chain.Chain, wts rnsWeights, oracle func(*rnsWor
 			buyer := w.drawAcc(rt, "buyer")
 			check(w.run("buy", buyer, key, newMsgBuy(buyer.Bech, key), nil))
 		},
+		// a name changes hands while it is listed; then somebody who does not hold it lists it (cheaply) and a third account
+		// tries to buy it
+		"relistAfterHandOver": func(rt *rapid.T) {
+			key := w.drawCanon(rt)
+			n, ok := w.names()[key]
+			if !ok || w.f.Height() >= n.Expires {
+				rt.Skip()
+			}
+			var holder chain.Account
+			found := false
+			for _, a := range w.accs {
+				if a.Bech == n.Value {
+					holder, found = a, true
+				}
+			}
+			if !found {
+				rt.Skip()
+			}
+			coin := sdk.NewInt64Coin("ujkl", rapid.Int64Range(1, 5000).Draw(rt, "askingPrice"))
+			check(w.run("list", holder, key, newMsgList(holder.Bech, key, coin), func(st *rnsStep) { st.Coin = coin }))
+			recv := w.drawAcc(rt, "receiver")
+			check(w.run("transfer", holder, key, rnstypes.NewMsgTransfer(holder.Bech, key, recv.Bech), func(st *rnsStep) { st.Receiver = recv.Bech }))
+			lister := w.drawAcc(rt, "lister")
+			cheap := sdk.NewInt64Coin("ujkl", rapid.Int64Range(0, 3).Draw(rt, "cheapPrice"))
+			check(w.run("list", lister, key, newMsgList(lister.Bech, key, cheap), func(st *rnsStep) { st.Coin = cheap }))
+			buyer := w.drawAcc(rt, "buyer")
+			check(w.run("buy", buyer, key, newMsgBuy(buyer.Bech, key), nil))
+		},
 		"buy": func(rt *rapid.T) {
 			key := w.drawCanon(rt)
 			s := w.drawAcc(rt, "signer")
